@@ -19,6 +19,12 @@ def evaluate(e: ast.AST, env: Dict[str, bool], atomise: Callable[[ast.AST], Opti
     if isinstance(e, ast.UnaryOp) and isinstance(e.op, ast.Not):
         return not evaluate(e.operand, env, atomise)
     a = atomise(e)
+    if a is None and isinstance(e, ast.Compare) and len(e.ops) == 1 and isinstance(e.ops[0], (ast.Eq, ast.NotEq, ast.Is, ast.IsNot)) \
+            and all(isinstance(x, (ast.Compare, ast.BoolOp)) or (isinstance(x, ast.UnaryOp) and isinstance(x.op, ast.Not))
+                    for x in (e.left, e.comparators[0])):
+        # (p) == (q) between two boolean sub-expressions: equivalence
+        same = evaluate(e.left, env, atomise) == evaluate(e.comparators[0], env, atomise)
+        return same if isinstance(e.ops[0], (ast.Eq, ast.Is)) else not same
     if a is None:
         # (expr) is True / is False wrappers around a boolean sub-expression
         if isinstance(e, ast.Compare) and len(e.ops) == 1 and isinstance(e.comparators[0], ast.Constant) \
